@@ -32,11 +32,11 @@ def run_lines_kernel(lines, timeout=900):
     try:
         src = os.path.join(d, "cases.v")
         with open(src, "w") as f:
-            f.write("From Coq Require Import String List.\nFrom HS Require Import Codec.\n"
+            f.write("From Coq Require Import String List.\nFrom HS Require Import Codec CodecA.\n"
                     "Import ListNotations.\nOpen Scope string_scope.\n")
             for i, line in enumerate(lines):
                 assert '"' not in line
-                f.write('Definition r%d := Eval vm_compute in run_line "%s".\n' % (i, line))
+                f.write('Definition r%d := Eval vm_compute in run_line_all "%s".\n' % (i, line))
             f.write("Definition nl := String (Ascii.ascii_of_nat 10) EmptyString.\n")
             for i in range(len(lines)):
                 f.write("Eval vm_compute in r%d.\n" % i)
